@@ -70,6 +70,9 @@ fn id_frag() -> impl Strategy<Value = Option<String>> {
             "1", "0", "-7", "\"abc\"", "\"\"", "{\"a\":1}", "[1,2]", "18446744073709551615", "18446744073709551616", "1.5", "true", "false", "null", "\"\\u00e9\\n\"", "123456789012345678901234567890", "[]", "{}",
         ]).prop_map(|s| Some(s.to_string())),
         1 => any::<i64>().prop_map(|v| Some(v.to_string())),
+        // structured ids with numbers the JSON library reads as floats (found by the libFuzzer target)
+        1 => ("[1-9][0-9]{18,32}", prop_oneof![Just(("[", "]")), Just(("{\"k\":", "}")), Just(("[[", ",1]]")), Just(("", ""))]).prop_map(|(d, (l, r))| Some(format!("{l}{d}{r}"))),
+        1 => ("-?[0-9]{1,3}\\.[0-9]{1,20}(e-?[0-9]{1,2})?", prop_oneof![Just(("[", "]")), Just(("", ""))]).prop_map(|(d, (l, r))| Some(format!("{l}{d}{r}"))),
     ]
 }
 
@@ -350,6 +353,9 @@ fn id_eq(a: &Value, b: &Value) -> bool {
             (Some(x), Some(y)) => (x - y).abs() <= 1e-12 * x.abs().max(y.abs()),
             _ => false,
         },
+        // structured ids: the same tolerance applies to the numbers inside them
+        (Value::Array(x), Value::Array(y)) => x.len() == y.len() && x.iter().zip(y.iter()).all(|(p, q)| id_eq(p, q)),
+        (Value::Object(x), Value::Object(y)) => x.len() == y.len() && x.iter().all(|(k, p)| y.get(k).is_some_and(|q| id_eq(p, q))),
         _ => false,
     }
 }
